@@ -484,7 +484,7 @@ func storeAgreesWithResult(s *flyt.SharedStore, key string, v any) (string, stri
 func statefulZoo() []zoo.Named {
 	var out []zoo.Named
 	for _, z := range zoo.Fixed() {
-		for _, p := range []string{"slice-", "map-", "named-", "rec-", "int-1", "string", "nil", "float64-1.5", "bool-true", "struct", "ptr-"} {
+		for _, p := range []string{"slice-", "map-", "named-", "rec-", "int-1", "string", "nil", "float64-1.5", "float64-0", "float64-neg0", "float32-0", "float32-neg0", "bool-true", "struct", "ptr-"} {
 			if strings.HasPrefix(z.Name, p) {
 				out = append(out, z)
 				break
@@ -494,6 +494,27 @@ func statefulZoo() []zoo.Named {
 	return out
 }
 
+// signedZeroCase: one key overwritten alternately with +0 and -0 (Set and Merge): the store holds the LAST value.
+func signedZeroCase(z []zoo.Named, i int) *StoreCase {
+	idx := func(name string) int {
+		for j, x := range z {
+			if x.Name == name {
+				return j
+			}
+		}
+		return 0
+	}
+	pairs := [][2]string{{"float64-0", "float64-neg0"}, {"float32-0", "float32-neg0"}, {"float64-neg0", "float64-0"}, {"float32-neg0", "float32-0"}}
+	pr := pairs[(i/40)%len(pairs)]
+	cs := &StoreCase{Family: "signed-zero-overwrites"}
+	k := (i / 160) % 4
+	for rep := 0; rep < 3; rep++ {
+		cs.Steps = append(cs.Steps, StoreStep{Op: "set", Key: k, Val: idx(pr[0])}, StoreStep{Op: "set", Key: k, Val: idx(pr[1])},
+			StoreStep{Op: "merge", Arg: []int{k, idx(pr[0])}}, StoreStep{Op: "set", Key: k, Val: idx(pr[1])}, StoreStep{Op: "read-typed", Key: k})
+	}
+	return cs
+}
+
 func runC15Stateful(c *Cfg) {
 	r := c.Rep
 	n := c.Pick(6000, 300000)
@@ -501,6 +522,10 @@ func runC15Stateful(c *Cfg) {
 		cs := genStoreCase(c, 1_000_000+i, 120)
 		// interleave in-place mutations
 		rg := c.Rng("c15st", i)
+		if i%40 == 7 {
+			// overwrites with values that compare equal (==) yet are different values: +0 / -0 of both float widths
+			cs = signedZeroCase(statefulZoo(), i)
+		}
 		for j := range cs.Steps {
 			if rg.IntN(5) == 0 {
 				cs.Steps[j].Op = "mutate-in-place"
